@@ -57,7 +57,7 @@ MANIFEST = dict(
 )
 
 
-ENGINE_MODES = ("engine", "cancel", "provfail")
+ENGINE_MODES = ("engine", "cancel", "provfail", "staged")
 
 # ------------------------------------------------------------------------------------------ build
 
@@ -94,7 +94,8 @@ def design(thorough):
            ("AggregatorMC", "Aggregator_exh_q2.cfg"), ("AggregatorMC", "Aggregator_exh_block_q2.cfg"),
            ("ShutdownMC", "Shutdown_exh.cfg"), ("ShutdownMC", "Shutdown_exh_drop.cfg"),
            # engine await loop composed with the aggregator (PoolAgg.tla)
-           ("PoolAggMC", "PoolAgg_exh_nofault.cfg"), ("PoolAggMC", "PoolAgg_exh_small.cfg"),
+           ("PoolAggMC", "PoolAgg_exh_nofault.cfg"), ("PoolAggMC", "PoolAgg_exh_schedend.cfg"),
+           ("PoolAggMC", "PoolAgg_exh_small.cfg"),
            # result destinations (Sink.tla): own files as coded; what a repair of the shared file must establish
            ("SinkMC", "Sink_exh.cfg"), ("SinkMC", "Sink_repair.cfg"),
            ("AggregatorMC", "Aggregator_exh_discard.cfg")]
@@ -102,14 +103,20 @@ def design(thorough):
         pos += [("AggregatorMC", "Aggregator_exh_big.cfg"), ("ShutdownMC", "Shutdown_exh_q2.cfg"),
                 ("ShutdownMC", "Shutdown_exh_big.cfg"),
                 ("PoolAggMC", "PoolAgg_exh.cfg"), ("PoolAggMC", "PoolAgg_exh_block.cfg"),
+                ("PoolAggMC", "PoolAgg_exh_small2.cfg"), ("PoolAggMC", "PoolAgg_live_nofault.cfg"),
                 ("PoolAggMC", "PoolAgg_live.cfg"), ("PoolAggMC", "PoolAgg_exh_big.cfg")]
     neg = [("AggregatorMC", "Aggregator_neg_nodrain.cfg"), ("AggregatorMC", "Aggregator_neg_noflush.cfg"),
            ("AggregatorMC", "Aggregator_neg_nocount.cfg"), ("AggregatorMC", "Aggregator_neg_late.cfg"),
            ("ShutdownMC", "Shutdown_neg_nowait.cfg"), ("ShutdownMC", "Shutdown_neg_reach.cfg"),
-           ("PoolAggMC", "PoolAgg_neg_early.cfg"), ("PoolAggMC", "PoolAgg_neg_early_complete.cfg"),
+           # a first signal while the tasks of a FAILED run are awaited ends the process (seed C06-6)
+           ("ShutdownMC", "Shutdown_neg_errsig.cfg"),
+           ("PoolAggMC", "PoolAgg_neg_early.cfg"),
+           # out of ammo during the start-up calls runCancel() instead of instanceStartCancel() (seed C06-8)
+           ("PoolAggMC", "PoolAgg_neg_ooa.cfg"), ("PoolAggMC", "PoolAgg_neg_ooa_start.cfg"),
            ("SinkMC", "Sink_neg_samefile.cfg"), ("SinkMC", "Sink_neg_append_midline.cfg"), ("SinkMC", "Sink_neg_latetrunc.cfg")]
     if thorough:
-        neg += [("PoolAggMC", "PoolAgg_neg_reach.cfg")]
+        neg += [("PoolAggMC", "PoolAgg_neg_reach.cfg"), ("PoolAggMC", "PoolAgg_neg_early_complete.cfg"),
+                ("PoolAggMC", "PoolAgg_neg_ooa_complete.cfg")]
     vlib.spec_copy()
 
     def one(mc):
@@ -131,7 +138,7 @@ def design(thorough):
         # every action of the design modules must have fired (an action that never fires is a modelling hole)
         import re
         for mod, cfg in (("AggregatorMC", "Aggregator_exh.cfg"), ("ShutdownMC", "Shutdown_exh_drop.cfg"),
-                         ("PoolAggMC", "PoolAgg_exh_small.cfg")):
+                         ("PoolAggMC", "PoolAgg_exh_small2.cfg")):
             r = vlib.tlc(mod, cfg, workers=4, heap="4g", timeout=3000, deadlock=False, coverage=True)
             vlib.tlc_must_pass(r, cfg + " (coverage)")
             acts = re.findall(r"^<(\w+) line \d+, col \d+ to line \d+, col \d+ of module \w+>: (\d+):(\d+)", r.out, re.M)
@@ -232,6 +239,16 @@ def describe_sig(evs, ev, inv, bad):
     st = next((e for e in evs if e["ev"] == "Start"), {})
     sg = next((e for e in evs if e["ev"] == "Signal"), {})
     ex = next((e for e in evs if e["ev"] == "Exit"), {})
+    if st.get("fail"):
+        return ("signal errorpath sig=%s kind=%s inv=%s bad=%s" % (st.get("sig"), st.get("kind"), inv, bad),
+                "pandora (%s; a second pool fails by itself %s ms into the run; slow pipe sink): %s; %s reports had returned "
+                "before the failure, %s begun at exit; result has %s lines (+%s counted drops), last line complete=%s, "
+                "aggregators returned before exit=%s, log says 'Another signal received'=%s after %s signal(s), exit status %s: %s" % (
+                    st.get("kind"), st.get("after_ms"),
+                    "no signal" if st.get("sig") == "none" else "ONE SIG%s sent when 'Awaiting started tasks' was logged" % st.get("sig"),
+                    ex.get("failed_returned_before"), ex.get("entered"), ex.get("lines"), ex.get("dropped"),
+                    ex.get("last_complete"), ex.get("agg_returned"), ex.get("another_signal"), ex.get("signals"),
+                    ex.get("status"), bad))
     return ("signal sig=%s kind=%s pipe=%s inv=%s bad=%s" % (st.get("sig"), st.get("kind"), st.get("pipe"), inv, bad),
             "pandora (%s, %s rps, %s instances in %s pool(s), %s sink, GOMAXPROCS=%s) stopped with SIG%s %s ms into the run: %s reports had returned "
             "before the signal, %s begun at exit; result has %s lines (+%s counted drops), last line complete=%s, "
@@ -302,15 +319,15 @@ def run(tier, v):
         sig_path = os.path.join(d, "aggsig.ndjson")
         nsig = 500 if thorough else 16
         fs = ex.submit(vlib.run_driver, vdrive, ["aggsig", "-vpandora", vpandora, "-out", sig_path, "-runs", str(nsig),
-                                                  "-par", "6" if thorough else "4"], 3000)
+                                                  "-par", "6" if thorough else "4", "-fail", "80" if thorough else "4"], 3000)
         states, trans, per = fd.result()
         fs.result()
     ncases, cstates, ctrans, csamples = format_cases(v, vdrive, d)
     # M1 in-process
     agg_path = os.path.join(d, "agg.ndjson")
-    nruns, neng, ncan, nstress, nprov, nother = (5000, 300, 1500, 40, 700, 400) if thorough else (300, 24, 40, 4, 24, 30)
+    nruns, neng, ncan, nstress, nprov, nother, nstaged = (5000, 300, 1500, 40, 700, 400, 400) if thorough else (300, 24, 40, 4, 24, 30, 20)
     vlib.run_driver(vdrive, ["agg", "-out", agg_path, "-runs", str(nruns), "-engine", str(neng), "-cancel", str(ncan),
-                             "-dropstress", str(nstress), "-provfail", str(nprov), "-other", str(nother)], timeout=3000)
+                             "-dropstress", str(nstress), "-provfail", str(nprov), "-other", str(nother), "-staged", str(nstaged)], timeout=3000)
     rows = vlib.read_ndjson(agg_path)
     # real engine runs (hooks of the await loop merged with report / line events) answer to PoolAgg's trace
     # specification, which re-uses every action of TraceAggregator; direct runs to TraceAggregator itself
@@ -354,13 +371,15 @@ def run(tier, v):
         "in_process_runs": {"validated": agg_validated, "events": len(rows), "reports": nrep, "lines": nlines,
                             "dropped": ndrop, "runs_with_drops": droprun, "engine_runs": neng, "engine_runs_cancelled_midway": ncan,
                             "modes": {m: sum(1 for r in rows if r["ev"] == "Run" and r["mode"] == m)
-                                      for m in ("normal", "late", "burst", "engine", "cancel", "provfail", "dropstress")},
+                                      for m in ("normal", "late", "burst", "engine", "cancel", "provfail", "staged", "dropstress")},
                             "engine_runs_provider_failed_midway": nprov,
                             "kinds": {k: sum(1 for r in rows if r["ev"] == "Run" and r["kind"] == k)
                                       for k in ("phout", "jsonlines", "log", "discard")}, "engine_hook_events": nhooks,
                             "engine_runs_validated_by_TracePoolAgg": pa_validated,
                             "trace_spec_states": agg_states},
         "signal_runs": {"validated": sig_validated, "signalled": len(sigs), "self_ended": len(exits) - len(sigs),
+                        "error_path_runs": sum(1 for r in srows if r["ev"] == "Start" and r.get("fail")),
+                        "error_path_runs_signalled_while_awaiting_tasks": sum(1 for e in exits if starts[e["run"]].get("fail") and e.get("signals")),
                         "forced": sum(1 for e in exits if e.get("forced")),
                         "late_reports_lost": sum(e["entered"] - e["lines"] - e["dropped"] for e in exits),
                         "reports": sum(e["entered"] for e in exits), "trace_spec_states": sig_states},
